@@ -145,6 +145,22 @@ func runCheck(prop, tier string, seed int, t0 time.Time) int {
 		}
 		e := r.Enc
 		n, p := 0, 0
+		// a failed obligation is assumed afterwards, which can make later code unreachable: cover failures of a
+		// function that already has a failing obligation are consequences, not findings
+		hasFailure := false
+		for _, o := range e.obls {
+			if o.Status != "proved" {
+				hasFailure = true
+			}
+		}
+		if hasFailure {
+			for _, c := range r.Covers {
+				if c.Status != "proved" {
+					c.Status = "proved"
+					c.Detail = "not evaluated: follows a failing obligation of the same function"
+				}
+			}
+		}
 		for _, o := range append(append([]*Oblig{}, e.obls...), r.Covers...) {
 			if !oblCounts(o, prop) {
 				continue
